@@ -558,8 +558,36 @@ def record_null_cases(rng: random.Random) -> List[JCase]:
     return out
 
 
+def float_neighbour_cases(rng: random.Random) -> List[JCase]:
+    """Float constants in equality / membership / bounds, against the constant itself, its two neighbouring
+    floats and values a relative 1e-10 away: validator and schema agree on exactly which of them pass."""
+    import math
+    from ..build import from_py
+    out: List[JCase] = []
+    for c in (0.3, 1.0, 2.5, 0.1, 1e21, -7.25):
+        ct = from_py(c, None)
+        near = [c, math.nextafter(c, math.inf), math.nextafter(c, -math.inf), c * (1 + 1e-10), c * (1 - 1e-10), float(int(c)) if abs(c) < 1e15 else c]
+        vs = [("EqualsV", ct, []),
+              ("Scalar", ("KFloat",), None, [], [("PEqualTo", ct)], []),
+              ("Scalar", ("KFloat",), None, [], [("PChoices", [ct])], []),
+              ("Scalar", ("KFloat",), None, [], [("PMin", ct, False)], []), ("Scalar", ("KFloat",), None, [], [("PMin", ct, True)], []),
+              ("Scalar", ("KFloat",), None, [], [("PMax", ct, False)], []), ("Scalar", ("KFloat",), None, [], [("PMax", ct, True)], [])]
+        for v in vs:
+            for x in near:
+                out.append(JCase(v, from_py(x, None), None, "float-neighbours"))
+            out.append(JCase(("ListV", v, [], [], None), ("VList", [from_py(x, None) for x in near[:3]]), None, "float-neighbours"))
+    return out
+
+
 def gen_cases(rng: random.Random, n: int) -> List[JCase]:
-    out: List[JCase] = sharing_cases(rng) + unique_cases(rng) + record_null_cases(rng)
+    """The explicit families, a stream that is the same on every run (private generator), and n cases from the
+    run's own seed - how many explicit cases there are never shortens the generated part."""
+    out: List[JCase] = sharing_cases(rng) + unique_cases(rng) + record_null_cases(rng) + float_neighbour_cases(rng)
+    return out + random_cases(random.Random(110911), 500) + random_cases(rng, n)
+
+
+def random_cases(rng: random.Random, n: int) -> List[JCase]:
+    out: List[JCase] = []
     while len(out) < n:
         rec = rng.random() < 0.15
         del POOL[:]
@@ -613,7 +641,7 @@ def evaluate(cases: List[JCase], rng) -> Tuple[List[JCase], int]:
 
 def run(tier: str, rng: random.Random, proof_ok: bool) -> dict:
     t0 = time.time()
-    n = 2500 if tier == "quick" else 40000
+    n = 1600 if tier == "quick" else 40000
     if not proof_ok:
         n *= 2
     cases = gen_cases(rng, n)
